@@ -113,6 +113,18 @@ def check_direct(case):
     ref = refclient.RefClient()
     for i, it in enumerate(case["items"]):
         msg = streams.to_library(it)
+        for wr in case.get("writes", []):
+            # the application sends a request in the middle of the stream: the mirror only follows the server
+            if wr["at"] % len(case["items"]) == i:
+                try:
+                    what = refclient.client_write(client, wr["k"])
+                except Exception as e:  # noqa
+                    f = lib_exception_failure(e, "client-write")
+                    raise Failure(f.sig, f"before message {i}: {f.msg}")
+                if what is not None:
+                    d = diff_views(refclient.library_view(client), ref.view())
+                    if d:
+                        raise Failure(f"client-write:mirror-changed:{d[0]}", f"before message {i}: writing {what}: {d[1]}")
         try:
             client.process_message(msg)
         except Exception as e:  # noqa
@@ -176,7 +188,10 @@ def check_stream(case):
         loop.shutdown()
 
 
-direct_case = st.fixed_dictionaries({"items": streams.stream(40)})
+direct_case = st.fixed_dictionaries({
+    "items": streams.stream(40),
+    "writes": st.lists(st.fixed_dictionaries({"at": st.integers(0, 40), "k": st.integers(0, 30)}), max_size=3),
+})
 stream_case = st.fixed_dictionaries({"items": streams.stream(25), "frag": st.lists(st.sampled_from([1, 2, 3, 7, 64, 1024]), min_size=1, max_size=4), "for_blobs": st.booleans()})
 
 SUBCHECKS = {"direct": check_direct, "stream": check_stream}
